@@ -121,8 +121,8 @@ fn core_word_div(xs: &mut State) -> Xresult {
             if *b == 0 {
                 Err(Xerr::DivisionByZero)
             } else {
-                let c = Cell::from(a / *b);
-                xs.push_data(c)
+                let c = a.checked_div(*b).ok_or_else(|| Xerr::IntegerOverflow)?;
+                xs.push_data(Cell::from(c))
             }
         }
         Cell::Real(b) => {
@@ -153,7 +153,10 @@ fn core_word_neg(xs: &mut State) -> Xresult {
 fn core_word_abs(xs: &mut State) -> Xresult {
     let a = xs.pop_data()?;
     match a.value() {
-        Cell::Int(a) => xs.push_data(Cell::Int(a.abs())),
+        Cell::Int(a) => {
+            let abs = a.checked_abs().ok_or_else(|| Xerr::IntegerOverflow)?;
+            xs.push_data(Cell::Int(abs))
+        }
         Cell::Real(a) => xs.push_data(Cell::Real(a.abs())),
         _ => Err(num_type_error(a)),
     }
@@ -208,7 +211,8 @@ fn core_word_into_int(xs: &mut State) -> Xresult {
 }
 
 fn core_word_is_zero(xs: &mut State) -> Xresult {
-    match xs.pop_data()?.value() {
+    let val = xs.pop_data()?;
+    match val.value() {
         Cell::Int(a) => {
             let flag = Cell::from(*a == 0);
             xs.push_data(flag)
@@ -217,15 +221,13 @@ fn core_word_is_zero(xs: &mut State) -> Xresult {
             let flag = Cell::from(*a == 0.0);
             xs.push_data(flag)
         }
-        _ => {
-            let val = xs.top_data()?.clone();
-            Err(num_type_error(val))
-        }
+        _ => Err(num_type_error(val)),
     }
 }
 
 fn core_word_is_positive(xs: &mut State) -> Xresult {
-    match xs.pop_data()?.value() {
+    let val = xs.pop_data()?;
+    match val.value() {
         Cell::Int(a) => {
             let flag = Cell::from(*a > 0);
             xs.push_data(flag)
@@ -234,15 +236,13 @@ fn core_word_is_positive(xs: &mut State) -> Xresult {
             let flag = Cell::from(*a > 0.0);
             xs.push_data(flag)
         }
-        _ => {
-            let val = xs.top_data()?.clone();
-            Err(num_type_error(val))
-        }
+        _ => Err(num_type_error(val)),
     }
 }
 
 fn core_word_is_negative(xs: &mut State) -> Xresult {
-    match xs.pop_data()?.value() {
+    let val = xs.pop_data()?;
+    match val.value() {
         Cell::Int(a) => {
             let flag = Cell::from(*a < 0);
             xs.push_data(flag)
@@ -251,10 +251,7 @@ fn core_word_is_negative(xs: &mut State) -> Xresult {
             let flag = Cell::from(*a < 0.0);
             xs.push_data(flag)
         }
-        _ => {
-            let val = xs.top_data()?.clone();
-            Err(num_type_error(val))
-        }
+        _ => Err(num_type_error(val)),
     }
 }
 
@@ -293,7 +290,23 @@ fn core_word_max(xs: &mut State) -> Xresult {
 }
 
 fn core_word_rem(xs: &mut State) -> Xresult {
-    arithmetic_ops_real(xs, Xint::wrapping_rem, std::ops::Rem::<f64>::rem)
+    let b = xs.pop_data()?;
+    let a = xs.pop_data()?;
+    match b.value() {
+        Cell::Int(b) => {
+            let a = a.to_xint()?;
+            if *b == 0 {
+                Err(Xerr::DivisionByZero)
+            } else {
+                xs.push_data(Cell::from(a.wrapping_rem(*b)))
+            }
+        }
+        Cell::Real(b) => {
+            let a = a.to_real()?;
+            xs.push_data(Cell::from(a % *b))
+        }
+        _ => Err(num_type_error(b)),
+    }
 }
 
 fn core_word_bitand(xs: &mut State) -> Xresult {
